@@ -1009,6 +1009,12 @@ static char *c08_build(const c08cfg_t *c, const char **algs, json_t **jout)
 		char txt[900];
 		vk_oct_bytes((int)c->octlen, k, c->octlen);
 		ref_b64_encode(k, c->octlen, txt);
+		/* oct encodings: 1 = padded with '=' to a multiple of four, 2 = followed by "====" (not RFC 7515 base64url: no import
+		 * demand, but whatever is imported must still be the bytes ahead of the padding, and report their size) */
+		if (c->enc_i == 1)
+			strncat(txt, "===", (4 - strlen(txt) % 4) % 4);
+		else if (c->enc_i == 2)
+			strcat(txt, "====");
 		j = json_pack("{ssss}", "kty", "oct", "k", txt);
 	}
 	if (algs[c->alg_i])
@@ -1046,7 +1052,9 @@ static void c08_one(const c08cfg_t *c, const char **algs)
 	c08_imports++;
 	if (!it || jwks_item_count(set) != 1)
 		vf_violation("import|no-item", "no single item for %.300s", doc);
-	else if (jwks_item_error(it)) {
+	else if (jwks_item_error(it) && !c->vk && c->enc_i) {
+		vf_obs(4);   /* padded k refused: allowed */
+	} else if (jwks_item_error(it)) {
 		vf_obs(3);
 		/* the quantifier names minimal-length and zero-padded integer encodings explicitly: they must import too */
 		if (c->enc_i != 0)
@@ -1075,6 +1083,64 @@ static void c08_one(const c08cfg_t *c, const char **algs)
 		vf_nontrivial(vf_hash_str(doc));
 	}
 	jwks_free(set);
+	json_decref(j);
+	free(doc);
+}
+
+/* defective keys imported just before a well-formed one (their failures must leave nothing behind that the next import sees) */
+static const char *C08_PRED[] = {
+	"{\"kty\":\"EC\",\"crv\":\"P-256\",\"x\":\"AQEBAQEBAQEBAQEBAQEBAQEBAQEBAQEBAQEBAQEBAQE\",\"y\":\"AgICAgICAgICAgICAgICAgICAgICAgICAgICAgICAgI\"}",
+	"{\"kty\":\"EC\",\"crv\":\"P-999\",\"x\":\"AQEBAQEBAQEBAQEBAQEBAQEBAQEBAQEBAQEBAQEBAQE\",\"y\":\"AgICAgICAgICAgICAgICAgICAgICAgICAgICAgICAgI\"}",
+	"{\"kty\":\"EC\",\"crv\":\"P-384\",\"x\":\"AQEB\",\"y\":\"AgIC\",\"d\":\"AwMD\"}",
+	"{\"kty\":\"OKP\",\"crv\":\"Ed25519\",\"x\":\"AAAA\"}",
+	"{\"kty\":\"OKP\",\"crv\":\"Ed448\",\"x\":\"AQEBAQEBAQEBAQEBAQEBAQEBAQEBAQEBAQEBAQEBAQE\",\"d\":\"AQEB\"}",
+	"{\"kty\":\"RSA\",\"n\":\"AA\",\"e\":\"AA\"}",
+	"{\"kty\":\"RSA\",\"n\":\"AQAB\",\"e\":\"AQAB\",\"d\":\"AQAB\",\"p\":\"AA\",\"q\":\"AA\",\"dp\":\"AA\",\"dq\":\"AA\",\"qi\":\"AA\"}",
+	"{\"kty\":\"oct\",\"k\":\"A\"}",
+};
+#define NC08PRED ((int)(sizeof C08_PRED / sizeof *C08_PRED))
+static long c08_pred_errors;
+
+static void c08_after(const c08cfg_t *c, const char **algs, int pred, int how)
+{
+	json_t *j;
+	char *doc = c08_build(c, algs, &j);
+	jwk_set_t *first = NULL, *set;
+	const jwk_item_t *it;
+	if (how == 2) {
+		/* the same JWKS: defective key first, then the well-formed one */
+		char *both = malloc(strlen(doc) + strlen(C08_PRED[pred]) + 32);
+		sprintf(both, "{\"keys\":[%s,%s]}", C08_PRED[pred], doc);
+		set = jwks_create(both);
+		free(both);
+		it = set && jwks_item_count(set) == 2 ? jwks_item_get(set, 1) : NULL;
+		if (set && jwks_item_count(set) == 2 && jwks_item_error(jwks_item_get(set, 0)))
+			c08_pred_errors++;
+	} else {
+		/* a set of its own, still alive (how 0) or already freed (how 1) when the well-formed key is imported */
+		first = jwks_create(C08_PRED[pred]);
+		if (first && jwks_item_count(first) && jwks_item_error(jwks_item_get(first, 0)))
+			c08_pred_errors++;
+		if (how == 1) {
+			jwks_free(first);
+			first = NULL;
+		}
+		set = jwks_create(doc);
+		it = set && jwks_item_count(set) == 1 ? jwks_item_get(set, 0) : NULL;
+	}
+	c08_imports++;
+	if (!it)
+		vf_violation("import|no-item", "no item for a well-formed JWK imported after a defective one: %.300s", doc);
+	else if (jwks_item_error(it))
+		vf_violation("import|well-formed-jwk-refused-after-defective-one", "%s %s refused after %s: %s", c->vk ? c->vk->name : "oct", c->priv ? "private" : "public",
+			     C08_PRED[pred], jwks_item_error_msg(it));
+	else {
+		vf_obs(1);
+		c08_compare(c, j, it, doc, algs);
+		vf_nontrivial(vf_hash_mix(vf_hash_str(doc), pred * 3 + how));
+	}
+	jwks_free(set);
+	jwks_free(first);
 	json_decref(j);
 	free(doc);
 }
@@ -1127,6 +1193,24 @@ static void enumerate_c08(void)
 						}
 		}
 	}
+	/* every pool key (and an oct key) imported right after each defective key */
+	for (int k = -1; k < vk_n; k++) {
+		const vk_t *vk = k < 0 ? NULL : &vk_pool[k];
+		if (vk && !strcmp(vk->crv, "X25519"))
+			continue;
+		const char *algs[8];
+		alg_choices(vk ? vk->kty : "oct", vk ? vk->bits : 0, algs);
+		for (int priv = 1; priv >= (vk ? 0 : 1); priv--) {
+			if (!vf_case("%s %s imported after each of %d defective keys (separate set alive / freed, same JWKS)", vk ? vk->name : "oct-64", priv ? "private" : "public", NC08PRED))
+				continue;
+			for (int pred = 0; pred < NC08PRED; pred++)
+				for (int how = 0; how < 3; how++) {
+					c08cfg_t c = { vk, priv, 64, 0, 0, 0, 0, 0, 0 };
+					c08_after(&c, algs, pred, how);
+				}
+		}
+	}
+	vf_count("defective_predecessors_that_errored", c08_pred_errors);
 	/* oct keys of every length 1..512 */
 	{
 		const char *algs[8];
@@ -1139,6 +1223,13 @@ static void enumerate_c08(void)
 					c08cfg_t c = { NULL, 1, (size_t)len, a, f % 2, 0, 0, 0, f == 0 ? 0 : f == 1 ? 2 : f == 2 ? 5 : 6 };
 					c08_one(&c, algs);
 				}
+			for (int e = 1; e <= 2; e++) {
+				size_t tl = (len * 4 + 2) / 3;
+				if ((e == 1 && tl % 4 == 0) || (e == 2 && (tl + 4) % 4 == 1))
+					continue;
+				c08cfg_t c = { NULL, 1, (size_t)len, 0, 0, 0, 0, e, 0 };
+				c08_one(&c, algs);
+			}
 		}
 	}
 	vf_count("evaluations", c08_imports);
